@@ -34,6 +34,8 @@ def enumerated(ctx, maxlen, sample3=None):
         label = "cycle %s %s%s%s%s%s x%d" % ('>'.join(kinds), ','.join(p[0] for p in places), ' via' if via else '', ' use-entry' if use_entry else '',
                                           ' wrap=' + '/'.join(w or '-' for w in wrappers) if any(wrappers) else '', ' +child' if extra_child else '', entries)
         d = G.cycle_doc(kinds, places, rot, via, flags, use_entry, wrappers, extra_child, entries)
+        if (h >> 5) & 1 and G.listify(d, hbits(kinds, places, 'flist')):
+            label += ' flist'
         d.nomodel = any(x.tag == 'switch' for x in d.walk())        # switch::convert is not modelled: e2e only
         out.append((label, d))
     # re-entry family: every single-kind 3-cycle entered by three plain shapes in sequence (the caches are filled by the
@@ -55,6 +57,10 @@ def impl_table(res, names):
     ents = []
     for i, (tag, eid, attrs) in enumerate(res['elems']):
         for k, v in attrs.items():
+            if k == 'filter' and len(v.split()) > 1:          # list-valued: one entry per url
+                for u in re.findall(r"url\(#([^)]*)\)", v):
+                    ents.append("(%d%%nat, %s, %d%%N)" % (i + 1, G.AKEY[k], names.get(u)))
+                continue
             m = re.fullmatch(r"url\(#([^)]*)\)", v.strip()) if k != 'href' else re.fullmatch(r"#(.*)", v.strip())
             if m:
                 ents.append("(%d%%nat, %s, %d%%N)" % (i + 1, G.AKEY[k], names.get(m.group(1))))
@@ -110,6 +116,11 @@ def run(ctx):
     broken = ctx.translate()
     res = ctx.coq_props(extra_targets=['Model/LinksChk.v'])
     proof_ok = res['ok'] and not broken
+    if not proof_ok:
+        rc_s, out_s = ctx.coq_eval('k_c03_sites', "Eval vm_compute in uncovered_sites.\n", ['Gen.LinkGuards', 'Model.LinksSites'], timeout=120)
+        if rc_s == 0 and 'nil' not in out_s:
+            ctx.log("link-following constructs of parser/** without a classified guard (C03_link_sites_covered): "
+                    + re.sub(r"\s+", " ", out_s.split(':')[0])[:1500])
     if not quick and res['ok']:
         if not ctx.coqchk():
             proof_ok = False
@@ -144,7 +155,8 @@ def run(ctx):
     nrand = 400 if quick else 6000
     for i in range(nrand):
         d = G.random_doc(rng, 2 + rng.below(11))
-        docs.append(("random graph %d" % i, d, G.to_svg(d)))
+        nl = G.listify(d, rng.below(1 << 30)) if rng.below(3) == 0 else 0
+        docs.append(("random graph %d%s" % (i, ' flist' if nl else ''), d, G.to_svg(d)))
     # duplicate ids (extension round 4): a random graph in which one element takes the id of another one - `use` resolves an
     # id to the FIRST element carrying it (id_map), every other reference to the LAST svgtree element (doc.links)
     ndup = 150 if quick else 2000
@@ -445,6 +457,11 @@ def use_family():
             doc("frame %s: acyclic chain with users" % attr,
                 [E(tag, 'c1', kids=[E('path')]).add(attr, 'c2'), E(tag, 'c2', kids=[E('path')]),
                  E('path').add(attr, 'c1'), E('g', kids=[E('path').add(attr, 'c2')])])
+            # rho shape (tail + cycle): m0 -> m1 -> m2 -> m3 -> m1, all cacheable (userSpaceOnUse), two users
+            doc("frame %s: rho chain" % attr,
+                [E(tag, 'm0', True, kids=[E('path')]).add(attr, 'm1'), E(tag, 'm1', True, kids=[E('path')]).add(attr, 'm2'),
+                 E(tag, 'm2', True, kids=[E('path')]).add(attr, 'm3'), E(tag, 'm3', True, kids=[E('path')]).add(attr, 'm1'),
+                 E('path').add(attr, 'm0'), E('path').add(attr, 'm0')])
             doc("frame %s: g <-> definition" % attr,
                 [E('g', 'a', kids=[E('path').add(attr, 'c1')]), E(tag, 'c1', kids=[E('path').add(attr, 'a')])])
     return out
